@@ -1449,6 +1449,7 @@ func (state *pexState) add(p pex.Peer) {
 		if len(state.pendingDel) == 0 {
 			state.pendingDel = nil
 		}
+		state.sent = append(state.sent, p)
 		return
 	}
 
